@@ -132,6 +132,9 @@ func ParseCTerm(n *sexp.Node) (*CTerm, error) {
 		a, err := ParseCTerm(n.Arg(2))
 		t.A = a
 		return t, err
+	case "twice":
+		a, err := ParseCTerm(n.Arg(0))
+		return &CTerm{K: KTwice, A: a}, err
 	case "ite":
 		c := n.Arg(0)
 		sc, err := parseScript(c.Arg(0))
